@@ -242,10 +242,12 @@ def _mer_shard(ctx, part, nparts, tier, seed):
     import random
 
     rng = random.Random(1000 * seed + part)  # don't-care values: log-probs only
-    L = 2 if tier == "quick" else 3
-    strs = S.all_strings(L)  # stored sequences of tensor size L; eos inside gives all shorter ones
     idx = 0
     for N, Mm in ((1, 2), (1, 3), (2, 2)):
+        # stored sequences of tensor size L (eos inside gives all shorter ones); thorough uses length 3 for
+        # pairs of samples only: triples of length-3 strings would be 38 M calls
+        L = 3 if (tier == "thorough" and Mm == 2 and N == 1) else 2
+        strs = S.all_strings(L)
         # all hyp sample sets: M-tuples of stored strings per element
         hyp_sets = list(itertools.product(strs, repeat=Mm))
         for ref3d in (False, True):
